@@ -80,6 +80,9 @@ func (c *Ctx) Finish(level string, evaluations, distinct, floor int, rule string
 		Assumptions: assumptions, WallS: time.Since(c.Start).Seconds(), Violations: len(c.violations)}
 	b, _ := json.MarshalIndent(ev, "", " ")
 	dir := filepath.Join(c.Verif, "evidence")
+	if d := os.Getenv("VERIF_EVIDENCE_DIR"); d != "" {
+		dir = d // validation runs against mutants must not overwrite the evidence of the real tree
+	}
 	os.MkdirAll(dir, 0o755)
 	os.WriteFile(filepath.Join(dir, c.ID+".json"), append(b, '\n'), 0o644)
 
